@@ -70,7 +70,9 @@ def H3():
     low = Machine('Low', [['L1', 'L2']], [],
                   [Row('L1', 'e0', 'L2', act=1, guard=1),
                    Row('L2', 'e0', 'L1', act=2, guard=2),
-                   Row('L2', 'e1', None, act=3, guard=3)])
+                   Row('L2', 'e1', None, act=3, guard=3),
+                   Row('L1', 'e4', 'L2', act=13, guard=8),      # e4: known only to the innermost machine
+                   Row('L2', 'e4', None, act=14, guard=9)])
     mid = Machine('Mid', [['M1', 'Low'], ['N1', 'N2']],
                   [St('Low', kind='sub', sub=low)],
                   [Row('M1', 'e1', 'Low', act=4),
@@ -83,8 +85,9 @@ def H3():
                   [Row('T1', 'e3', 'Mid', act=9),
                    Row('Mid', 'e0', 'T1', act=10, guard=6),
                    Row('Mid', 'e3', 'T1', act=11),
-                   Row('Mid', 'e1', None, act=12, guard=7)])
-    return Program(top, ['e0', 'e1', 'e2', 'e3'])
+                   Row('Mid', 'e1', None, act=12, guard=7),
+                   Row('Mid', 'e4', None, act=15, guard=10)])   # outer row for the event only Low knows
+    return Program(top, ['e0', 'e1', 'e2', 'e3', 'e4'])
 
 
 def X():
@@ -107,7 +110,12 @@ def X():
                  Row(('exit', 'SubX', 'Px'), 'e6', 'B', act=14, guard=5),
                  Row('SubX', 'e7', 'A', act=15),
                  Row('B', 'e7', 'A', act=16),
-                 Row('B', 'e6', None, act=17)])
+                 Row('B', 'e6', None, act=17),
+                 # the same explicit targets through the other row kinds (guard-only, plain)
+                 Row('B', 'e2', ('direct', 'SubX', ['S2']), None, guard=7),
+                 Row('B', 'e3', ('direct', 'SubX', ['S2', 'T2'])),
+                 Row('B', 'e4', ('entry', 'SubX', 'Pe'), None, guard=8),
+                 Row('B', 'e1', 'SubX', None, guard=9)])
     p = Program(m, ['e0', 'e1', 'e2', 'e3', 'e4', 'e5', 'e6', 'e7'])
     p.evt_extra = {'e6': 'e6(e5 const& o) : p(o.p) {}'}
     return p
